@@ -16,7 +16,7 @@
 (* computed from the logged calls and their result kinds only, never from   *)
 (* the observed values.  One VERDICT line is printed per trace.             *)
 (***************************************************************************)
-EXTENDS Guard, Json, IOUtils, TLCExt
+EXTENDS Conformity, Json, IOUtils, TLCExt
 
 Traces == JsonDeserialize(IOEnv.TRACE_FILE)
 
@@ -116,6 +116,12 @@ StepGuard ==
   /\ fails' = fails \cup { <<l, x[1], x[2]>> : x \in NotOk(GuardTable(R, prevO, Line)) }
   /\ UNCHANGED <<R, T, rej, prevO>>
 
+\* C20: delta-conformity calls on the current (labelled) object
+StepConf ==
+  /\ Line.op = "conf"
+  /\ fails' = fails \cup { <<l, x[1], x[2]>> : x \in ConfTable(Line.obs, Line.es, Line.ss) }
+  /\ UNCHANGED <<R, T, rej, prevO>>
+
 StepPaths ==
   /\ Line.op = "paths"
   /\ LET bad == UNION { NotOk(QTab(Line.obs, Line.qs[i])) : i \in DOMAIN Line.qs }
@@ -123,7 +129,7 @@ StepPaths ==
   /\ UNCHANGED <<R, T, rej, prevO>>
 
 Step == /\ l <= Len(Traces[tid])
-        /\ (StepNew \/ StepAdd \/ StepNode \/ StepObserve \/ StepBattery \/ StepDerive \/ StepParse \/ StepPaths \/ StepStats \/ StepGuard)
+        /\ (StepNew \/ StepAdd \/ StepNode \/ StepObserve \/ StepBattery \/ StepDerive \/ StepParse \/ StepPaths \/ StepStats \/ StepGuard \/ StepConf)
         /\ l' = l + 1
         /\ UNCHANGED tid
 
